@@ -14,7 +14,7 @@ pub fn prop() -> Prop {
     Prop {
         id: "C01",
         level: "exploration",
-        rule: "per decoder (AdcPacket/AdcV3Packet, Chunk, PwbPacket/PwbV2Packet from bytes and from Vec<Chunk>, TrgPacket/TrgV3Packet, chronobox_fifo, all *BankName/BoardId string parsers, all id conversions): (i) random bytes in boundary length classes up to 65 564 bytes; (ii) valid packets with one field at {0,1,2,3,mid,max-2,max-1,max} with CRC/baseline re-fixed and not re-fixed; (iii) every single-byte overwrite with 8 values, every single-bit flip, every truncation and extension by 1..8 bytes of seed packets; (iv) chunk lists: subsets, duplicates, permutations, >65536 chunks with repeated ids; (v) FIFO streams; (vi) all 128^4 ASCII names (checked profile too) + random UTF-8; (vii) id conversions exhaustively. Every call runs under catch_unwind in a release and an overflow-checked build; on Ok every accessor and Display is exercised. Non-trivial = distinct inputs (hash) that got past the length check of their decoder. Added after the seeded-change rounds: slices of 65 552..65 568 and 131 108 bytes, maximum-size chunks (payload 65 524..65 535) with consistent CRCs and appended zero words, ADC packets of 32 767..70 000 samples, chunk lists whose final chunk is longer than the others, every arrangement of multi-byte characters in a 4-byte string.",
+        rule: "per decoder (AdcPacket/AdcV3Packet, Chunk, PwbPacket/PwbV2Packet from bytes and from Vec<Chunk>, TrgPacket/TrgV3Packet, chronobox_fifo, all *BankName/BoardId string parsers, all id conversions): (i) random bytes in boundary length classes up to 65 564 bytes; (ii) valid packets with one field at {0,1,2,3,mid,max-2,max-1,max} with CRC/baseline re-fixed and not re-fixed; (iii) every single-byte overwrite with 8 values, every single-bit flip, every truncation and extension by 1..8 bytes of seed packets; (iv) chunk lists: subsets, duplicates, permutations, >65536 chunks with repeated ids; (v) FIFO streams; (vi) all 128^4 ASCII names (checked profile too) + random UTF-8; (vii) id conversions exhaustively. Every call runs under catch_unwind in a release and an overflow-checked build; on Ok every accessor and Display is exercised. Non-trivial = distinct inputs (hash) that got past the length check of their decoder. Added after the seeded-change rounds: slices of 65 552..65 568 and 131 108 bytes, maximum-size chunks (payload 65 524..65 535) with consistent CRCs and appended zero words, ADC packets of 32 767..70 000 samples, chunk lists whose final chunk is longer than the others, every arrangement of multi-byte characters in a 4-byte string. Round 4: every header offset x width 1/2/4 of a TRG / ADC / chunk / PWB seed set to every integer literal found in the library sources (read from the tree under test) or a boundary value, alone and jointly with every single-bit flip and every byte forced to 00/FF elsewhere in the header.",
         assumptions: &["rustc overflow checks and debug assertions (profile `checked`) trap arithmetic overflow; aborts and stalls are caught by the child-shard driver and the CPU-time watchdog"],
         profiles: both,
         shards: shards16,
@@ -52,6 +52,45 @@ fn total<T, E: std::fmt::Debug>(ctx: &mut Ctx, name: &str, input: &[u8], past_le
                 ctx.panic_violation(&format!("{} accessors", name), &p, json!({"decoder": name, "bytes": hex(input)}));
             }
             true
+        }
+    }
+}
+
+/// The monitor without the bookkeeping, for the very large enumerations: decode, and on Ok touch the accessors.
+fn quiet<T, E>(ctx: &mut Ctx, name: &str, input: &[u8], f: impl FnOnce() -> Result<T, E>, touch: impl FnOnce(&T)) {
+    ctx.eval();
+    if let Err(p) = guard(|| {
+        if let Ok(v) = f() {
+            touch(&v)
+        }
+    }) {
+        ctx.panic_violation(name, &p, json!({"decoder": name, "bytes": hex(input)}));
+    }
+}
+fn quiet_all(ctx: &mut Ctx, which: u8, b: &[u8]) {
+    match which {
+        0 => {
+            quiet(ctx, "TrgV3Packet", b, || TrgV3Packet::try_from(b), |p| {
+                let _ = (p.aw16_multiplicity(), p.aw16_bus(), p.bsc64_bus(), p.bsc64_multiplicity(), p.coincidence_latch(), p.firmware_revision());
+            });
+            quiet(ctx, "TrgPacket", b, || TrgPacket::try_from(b), |p| {
+                let _ = (p.scaledown_counter(), p.drift_veto_counter());
+            });
+        }
+        1 => {
+            quiet(ctx, "AdcV3Packet", b, || AdcV3Packet::try_from(b), |p| {
+                let _ = (p.waveform().len(), p.suppression_baseline(), p.keep_last(), p.board_id(), p.channel_id());
+            });
+            quiet(ctx, "AdcPacket", b, || AdcPacket::try_from(b), |p| {
+                let _ = (p.waveform().len(), p.suppression_baseline(), p.keep_last());
+            });
+        }
+        2 => quiet(ctx, "Chunk", b, || Chunk::try_from(b), |c| {
+            let _ = (c.board_id(), c.after_id(), c.payload().len());
+        }),
+        _ => {
+            quiet(ctx, "PwbV2Packet(bytes)", b, || PwbV2Packet::try_from(b), touch_pwb_v2);
+            quiet(ctx, "PwbPacket(bytes)", b, || PwbPacket::try_from(b), touch_pwb);
         }
     }
 }
@@ -301,6 +340,49 @@ fn run(ctx: &mut Ctx) {
         trg(ctx, &b);
         fifo(ctx, &b);
     });
+    // ---- one field at a constant taken from the library's own sources (or a boundary value) and, jointly, one
+    // more bit / byte changed elsewhere in the header: totality must not hinge on particular field values
+    let dict = super::source_dictionary("detector/src");
+    ctx.cases("dictionary-pairs", 80 + 40 + 24 + 56, |ctx, k, rng| {
+        let k = k as usize;
+        let mut n = 0;
+        if k < 80 {
+            let seed = Trg::simple(rng.next() as u32, 0x0123_4567).encode();
+            n += super::dict_pairs(&seed, k, 0..80, &dict, |_| {}, |b| quiet_all(ctx, 0, b));
+        } else if k < 120 {
+            let off = k - 80;
+            let wf = super::c02::content(rng, 3, 70);
+            for sup in [false, true] {
+                let mut a = Adc::simple(rng.pick(&A16_MACS).1, rng.below(32) as u8, wf.clone());
+                if sup {
+                    a.suppression = true;
+                    a.keep_bit = true;
+                    a.keep_last = 35;
+                    a.requested_samples = 74;
+                }
+                let seed = a.encode();
+                let l = seed.len();
+                let off = if off < 36 { off } else { l - 40 + off }; // header offsets, then the footer
+                n += super::dict_pairs(&seed, off, 0..36, &dict, |_| {}, |b| quiet_all(ctx, 1, b));
+            }
+        } else if k < 144 {
+            let off = k - 120;
+            let board = *rng.pick(&PWB_BOARDS);
+            let c = enc::Chunk { device_id: pwb_device_id(&board.1), packet_sequence: 1, channel_sequence: 2, channel_id: rng.below(4) as u8, flags: 1, chunk_id: 0, payload: rng.bytes(9) };
+            let seed = c.encode();
+            for refix in [false, true] {
+                n += super::dict_pairs(&seed, off.min(seed.len() - 4), 0..24, &dict, |x| if refix { refix_chunk(x) }, |b| quiet_all(ctx, 2, b));
+            }
+        } else {
+            let off = k - 144;
+            let board = *rng.pick(&PWB_BOARDS);
+            let p = Pwb::new('B', board.1, 5, vec![(3, vec![1, -2, 3, -4, 5]), (40, vec![9; 5])]);
+            let seed = p.encode();
+            n += super::dict_pairs(&seed, off, 0..56, &dict, |_| {}, |b| quiet_all(ctx, 3, b));
+        }
+        ctx.count_n("inputs with a field at a source constant", n);
+    });
+    ctx.require("inputs with a field at a source constant", 1_000_000);
     // ---- (ii)+(iii) ADC
     ctx.cases("adc", ctx.tier.pick(24, 200), |ctx, i, rng| {
         let n = *rng.pick(&[64usize, 65, 66, 70, 100, 697]);
